@@ -53,6 +53,8 @@ type c16Model struct {
 type c16Config struct {
 	Perm   bool `json:"perm"`
 	Budget int  `json:"budget"`
+	// RecvOnly: the adapters are receivers only (no Send, no peer endpoint), like a listener-side connection
+	RecvOnly bool `json:"recv_only,omitempty"`
 }
 
 type c16Call struct {
@@ -234,6 +236,17 @@ func (a *c16Adapter) GetPeerEndpointID() bpv7.EndpointID { return gen.MustEID("d
 func (a *c16Adapter) Send(bpv7.Bundle) error             { return nil }
 func (a *c16Adapter) String() string                     { return fmt.Sprintf("mock-%c", 'A'+a.inst) }
 
+// c16RecvOnly presents an adapter to the manager as a pure ConvergenceReceiver.
+type c16RecvOnly struct{ a *c16Adapter }
+
+func (r *c16RecvOnly) Start() (error, bool)                { return r.a.Start() }
+func (r *c16RecvOnly) Close() error                        { return r.a.Close() }
+func (r *c16RecvOnly) Channel() chan cla.ConvergenceStatus { return r.a.Channel() }
+func (r *c16RecvOnly) Address() string                     { return r.a.Address() }
+func (r *c16RecvOnly) IsPermanent() bool                   { return r.a.IsPermanent() }
+func (r *c16RecvOnly) GetEndpointID() bpv7.EndpointID      { return r.a.GetEndpointID() }
+func (r *c16RecvOnly) String() string                      { return r.a.String() }
+
 type c16Task struct {
 	Cfg    c16Config  `json:"cfg"`
 	Events []c16Event `json:"events"`
@@ -268,6 +281,14 @@ func c16Replay(t c16Task) (res c16Result) {
 	vtime.SetVirtual(vtime.Epoch)
 	h := &c16Harness{}
 	ads := []*c16Adapter{{inst: 0, perm: t.Cfg.Perm, ch: make(chan cla.ConvergenceStatus), h: h}, {inst: 1, perm: t.Cfg.Perm, ch: make(chan cla.ConvergenceStatus), h: h}}
+	// what the manager gets to see of adapter i
+	wraps := []*c16RecvOnly{{ads[0]}, {ads[1]}}
+	conv := func(i int) cla.Convergence {
+		if t.Cfg.RecvOnly {
+			return wraps[i]
+		}
+		return ads[i]
+	}
 	mgr := cla.NewManager()
 	mgr.VerifSetQueueTtl(int32(t.Cfg.Budget))
 	// the handler goroutine arms its retry ticker asynchronously: wait until it is armed
@@ -310,14 +331,14 @@ func c16Replay(t c16Task) (res c16Result) {
 		ok := true
 		switch e.Op {
 		case "register":
-			ok = withWatchdog(func() { mgr.Register(ads[e.Inst]) })
+			ok = withWatchdog(func() { mgr.Register(conv(e.Inst)) })
 		case "unregister":
-			ok = withWatchdog(func() { mgr.Unregister(ads[e.Inst]) })
+			ok = withWatchdog(func() { mgr.Unregister(conv(e.Inst)) })
 		case "restart":
-			ok = withWatchdog(func() { mgr.Restart(ads[e.Inst]) })
+			ok = withWatchdog(func() { mgr.Restart(conv(e.Inst)) })
 		case "peerdis":
 			ok = withWatchdog(func() {
-				ads[e.Inst].ch <- cla.NewConvergencePeerDisappeared(ads[e.Inst], ads[e.Inst].GetPeerEndpointID())
+				ads[e.Inst].ch <- cla.NewConvergencePeerDisappeared(conv(e.Inst), ads[e.Inst].GetPeerEndpointID())
 			})
 			if ok {
 				// the manager forwards the message after it has restarted the adapter: receiving it is the synchronisation
@@ -360,6 +381,9 @@ func c16Replay(t c16Task) (res c16Result) {
 		if model.Active && !closed {
 			n := fmt.Sprintf("mock-%c", 'A'+model.Inst)
 			wantAct = []string{"R:" + n, "S:" + n}
+			if t.Cfg.RecvOnly {
+				wantAct = []string{"R:" + n}
+			}
 		}
 		obs = append(obs, fmt.Sprintf("%v -> calls %v active %v", e, got, act))
 		if fmt.Sprint(act) != fmt.Sprint(wantAct) {
@@ -425,7 +449,7 @@ func runC16(r *ev.Run, thorough bool) int {
 	transitions := 0
 	for _, perm := range []bool{false, true} {
 		for budget := 0; budget <= 3; budget++ {
-			cfg := c16Config{perm, budget}
+			cfg := c16Config{Perm: perm, Budget: budget}
 			// (1) BFS over the reference machine to its fixpoint; one trace per transition
 			type node struct {
 				m     c16Model
@@ -503,9 +527,45 @@ func runC16(r *ev.Run, thorough bool) int {
 			rec(c16Model{}, nil)
 		}
 	}
+	// receiver-only adapters: one trace per transition of the reference machine (budget 2)
+	for _, perm := range []bool{false, true} {
+		cfg := c16Config{Perm: perm, Budget: 2, RecvOnly: true}
+		type node struct {
+			m     c16Model
+			trace []c16Event
+		}
+		seen := map[string]bool{fmt.Sprintf("%+v", c16Model{}): true}
+		frontier := []node{{}}
+		for len(frontier) > 0 {
+			n := frontier[0]
+			frontier = frontier[1:]
+			for _, e := range alpha {
+				if !n.m.enabled(e) {
+					continue
+				}
+				m2 := n.m
+				calls := m2.step(cfg, e)
+				if e.Out != 0 {
+					started := false
+					for _, c := range calls {
+						started = started || c.What == "start"
+					}
+					if !started {
+						continue
+					}
+				}
+				tr := append(append([]c16Event(nil), n.trace...), e)
+				tasks = append(tasks, c16Task{Cfg: cfg, Events: tr})
+				if k := fmt.Sprintf("%+v", m2); !seen[k] {
+					seen[k] = true
+					frontier = append(frontier, node{m2, tr})
+				}
+			}
+		}
+	}
 	for _, perm := range []bool{false, true} {
 		for _, ov := range c16Overlaps {
-			tasks = append(tasks, c16Task{Cfg: c16Config{perm, 2}, Overlap: ov})
+			tasks = append(tasks, c16Task{Cfg: c16Config{Perm: perm, Budget: 2}, Overlap: ov})
 		}
 	}
 	raw := make([][]byte, len(tasks))
